@@ -103,6 +103,12 @@ pub fn op_kinds<F: Family>(p: &Program<F>) -> Vec<String> {
                 GOp::Join(_) => {
                     s.insert("Join".into());
                 }
+                GOp::ScopeBegin(_) => {
+                    s.insert("ScopeBegin".into());
+                }
+                GOp::ScopeEnd => {
+                    s.insert("ScopeEnd".into());
+                }
             }
         }
     }
@@ -207,6 +213,21 @@ pub fn check_program<F: Family>(idx: usize, prog: &Program<F>, mode: &Mode) -> P
                 "log": rec.log.iter().filter(|e| matches!(e.kind, EKind::Ret(_))).map(|e| format!("t{}#{}@{}:{:?}", e.thread, e.op, e.stamp, e.kind)).collect::<Vec<_>>(),
                 "ending": format!("{:?}", cr.outcome.ending),
             }));
+        }
+        if cr.fail.is_none() && mode.sound && viols.len() < maxv {
+            if let Some((culprit, what)) = F::monitor(prog, rec) {
+                viols.push(Violation {
+                    kind: VKind::Sound,
+                    culprit,
+                    family: F::NAME.into(),
+                    program_idx: idx,
+                    program: desc.clone(),
+                    op_kinds: kinds.clone(),
+                    what,
+                    alts: alts_to_strings(&rec.path),
+                    choices: rec.path.iter().map(|n| n.idx).collect(),
+                });
+            }
         }
         if let Some(f) = &cr.fail {
             if mode.sound && viols.len() < maxv {
